@@ -4,10 +4,11 @@ CONSTANTS
   LocalBits <- TLocal
   K <- TK
   Peers <- TNone
+  Addrs <- TNone
   Targets <- TNone
   Counts <- TNone
   MaxOps = 100000000
-INVARIANTS Valid
+INVARIANTS Valid AddrOK SizeOK
 CONSTRAINT HW
 POSTCONDITION Accepted
 CHECK_DEADLOCK FALSE
